@@ -110,7 +110,28 @@ func checkTotal(text []byte, limit time.Duration) (msg string, class string) {
 	if m := complete(text, out.Src); m != "" {
 		return "tree returned without error is not complete: " + m, "incomplete"
 	}
+	if m := lexicallyClean(text); m != "" {
+		return m, "incomplete"
+	}
 	return "", "accepted"
+}
+
+// lexicallyClean: a tree without error can only come from an input in which
+// every byte belongs to a well-formed token or to whitespace; an invalid
+// character, a malformed number or an unterminated string that "disappears"
+// means the input was not consumed.
+func lexicallyClean(text []byte) string {
+	lr := ref.Lex(text)
+	if lr.Err {
+		for _, tk := range lr.Tokens {
+			if tk.Unspec {
+				return "" // escape forms the properties leave open
+			}
+		}
+		at := lr.ErrPos
+		return fmt.Sprintf("accepted without error although the input is lexically malformed at offset %d (%q): the whole input was not consumed", at, text[at:min(len(text), at+12)])
+	}
+	return ""
 }
 
 func init() {
@@ -175,6 +196,8 @@ func TestC01TokenSequences(t *testing.T) {
 			cls = "accepted"
 			if m := complete(text, out.Src); m != "" {
 				msg, cls = "tree returned without error is not complete: "+m, "incomplete"
+			} else if m := lexicallyClean(text); m != "" {
+				msg, cls = m, "incomplete"
 			}
 		}
 		nt := len(seq) > 1 && (cls != "accepted" || out.Src.NodeCount >= 3)
@@ -389,4 +412,42 @@ func FuzzC01ParseTotal(f *testing.F) {
 			t.Fatalf("%s", msg)
 		}
 	})
+}
+
+// TestC01Speculation: inputs that drive the parser's only speculative path (a
+// member name on the line after its dot) followed by every token of the full
+// alphabet, inside and outside lists.
+func TestC01Speculation(t *testing.T) {
+	run := h.Begin("C01", "speculation", "bounded-exhaustive: context {_, [_], f(_), (_), [x, _], f(x, _), _ + y} x 'a' ('.'|'!.') <line break> name(b|null|typeof) x every pair of following tokens over the full alphabet (incl. hostile lexemes and the empty token); this drives the look-ahead / rollback path of member-name parsing; oracle: outcome contract incl. 'no lexically malformed input is accepted'; non-trivial: all")
+	defer run.End(t)
+	ctxs := []string{"_", "[_]", "f(_)", "(_)", "[x, _]", "f(x, _)", "_ + y"}
+	tail := append([]string{""}, c01Alphabet...)
+	var idx int64
+	for _, cx := range ctxs {
+		for _, sel := range []string{".", "!."} {
+			for _, nl := range []string{"\n", "\r\n", "\u2028"} {
+				for _, name := range []string{"b", "null", "typeof"} {
+					for _, t1 := range tail {
+						for _, t2 := range tail {
+							idx++
+							if !h.Mine(idx) || run.NViolations() >= 3 {
+								continue
+							}
+							core := "a" + sel + nl + name + " " + t1 + " " + t2
+							text := []byte(strings.ReplaceAll(cx, "_", core))
+							msg, cls := checkTotal(text, 20*time.Second)
+							run.Count(true, cls)
+							if idx%7919 == 0 {
+								run.Sample(cls, string(text))
+							}
+							if msg != "" {
+								run.Fail("c01", mkTextCase(string(text), ""), fmt.Sprintf("%q: %s", text, msg))
+							}
+						}
+					}
+				}
+			}
+		}
+	}
+	run.Exhaustive()
 }
